@@ -188,11 +188,8 @@ func c08Instance(c *fw.Ctx, kind c08Kind, mtu int, inputs [][]byte, inKinds []st
 	}
 	for call, in := range inputs {
 		// A gets a private copy it may keep forever; B gets one that is overwritten after the call
-		inA := append([]byte(nil), in...)
-		inB := append([]byte(nil), in...)
-		if in == nil {
-			inA, inB = nil, nil
-		}
+		inA := fw.Exact(in)
+		inB := fw.Exact(in)
 		pristine := append([]byte(nil), in...)
 		var outA, outB [][]byte
 		if pv, st := fw.Guard(func() { outA = a.Payload(uint16(mtu), inA) }); pv != nil {
